@@ -39,6 +39,9 @@ PROPS["C04"] = dict(
     selftest=dict(quick=40, thorough=200),
     trace=dict(module="trace/T_C04.tla", cfg="trace/T_C04.cfg"),
     trace_chunk=400,
+    # second recorded-run stage: whole xargs runs against the composed specification XargsSem (real input bytes through the
+    # reference tokenisation / -0 / -d splitting, batching, argv = initial arguments + batch, children's outcomes -> exit status)
+    more=[dict(record_vh="XSEM", record=dict(quick=500, thorough=10000), trace=dict(module="trace/T_XSem.tla", cfg="trace/T_XSem.cfg"), trace_chunk=500)],
     rule="MC: all argument sequences up to MAXARGS over lengths LENS x line-end flags x n x L x s x -x x -r x system budget; "
          "vectors = those inputs with the system budget not binding; trace: random sequences (0..3000 arguments, lengths 1..60, "
          "varied separators incl. blank-before-newline continuation), options drawn at random.",
